@@ -12,6 +12,7 @@ import OxiaVerif.Model.Batch
 import OxiaVerif.Model.Ack
 import OxiaVerif.Model.Session
 import OxiaVerif.Model.Repl
+import OxiaVerif.Driver.AReplSim
 
 /-! Line-protocol dispatch: one operation line in, one output line out. -/
 namespace Oxia.Driver
@@ -32,6 +33,7 @@ structure State where
   clusterOff : Int := 0
   clusterUp : Bool := false
   world : Repl.World := Repl.World.init 0
+  track : Option AReplSim.Track := none
 
 def State.init : State := {}
 
@@ -751,6 +753,44 @@ def stepRepl (st : State) (toks : List String) : State × String :=
     | none => (st, "bad-op")
   | _ => (st, "bad-op")
 
+/-- protocol scripts with the A-Repl explanation of every step (`Driver/AReplSim.lean`) -/
+def stepReplTracked (st : State) (toks : List String) : State × String :=
+  match toks with
+  | ["p.astat"] => (st, match st.track with | some t => AReplSim.status t | none => "arepl none")
+  | _ =>
+  let (st', out) := stepRepl st toks
+  if out == "bad-op" then (st', out) else
+  let op := toks.headD ""
+  if op == "p.init" then
+    ({ st' with track := some { a := ARepl.init st'.world.nodes.length } }, out)
+  else
+  match st'.track with
+  | none => (st', out)
+  | some t =>
+    let t :=
+      if op == "p.electm" then
+        AReplSim.switchOff t "an ensemble change (p.electm)"
+      else if ["p.newterm", "p.lead", "p.add", "p.trunc"].contains op then
+        AReplSim.advanceLenient t st'.world op
+      else
+        let t := match toks with
+          | ["p.elect", _, tm] =>
+            match tm.toInt? with
+            | some tm => if tm ≤ t.lastElect then AReplSim.switchOff t "an election that reuses a term" else { t with lastElect := tm }
+            | none => t
+          | ["p.racewrite", _, _, tm] =>
+            match tm.toInt? with
+            | some tm => if tm ≤ t.lastElect then AReplSim.switchOff t "an election that reuses a term" else { t with lastElect := tm }
+            | none => t
+          | _ => t
+        let hint : AReplSim.Hint := match toks with
+          | ["p.write", i, id] => (match i.toNat?, id.toNat? with | some i, some id => .write i id | _, _ => .none)
+          | ["p.racewrite", i, id, _] => (match i.toNat?, id.toNat? with | some i, some id => .write i id | _, _ => .none)
+          | _ => .none
+        AReplSim.advance t st'.world hint
+    let out := if op == "p.state" && t.flagged then out ++ " AREPL-UNEXPLAINED(" ++ t.note ++ ")" else out
+    ({ st' with track := some t }, out)
+
 /-- the cluster scripts of C06/C07: M-Db applies the log in one go; the routes (restart, election with
     replay, snapshot join) do not exist in the model -/
 def stepCluster (st : State) (toks : List String) : State × String :=
@@ -787,7 +827,7 @@ def step (st : State) (line : String) : State × String :=
     else if t.startsWith "db." || t.startsWith "idx." then stepDb st toks
     else if t.startsWith "sh." || t.startsWith "cs." || t.startsWith "cl." then stepShard st toks
     else if t.startsWith "sel." then stepSelect st toks
-    else if t.startsWith "p." then stepRepl st toks
+    else if t.startsWith "p." then stepReplTracked st toks
     else if t.startsWith "c." then stepCluster st toks
     else if t.startsWith "s." then stepSess st toks
     else if t.startsWith "q." || t.startsWith "lc." then stepAck st toks
